@@ -50,7 +50,7 @@ def run(prop, tier, seed, out):
         cov["distinct_nontrivial"] = r["distinct_nontrivial"]
         cov["rule"] = ("one evaluation = one vector of the Sinks decision table (format table x configured format x writer behaviour x sink kind, or channel-ready x timeout x cancel "
                        "instants) run on the real sink with 1, 4 and 16 concurrent callers and random format contents; non-trivial = vectors whose expected outcome is success/delivery")
-        cov["samples"] = r["samples"]
+        cov["samples"] = r.get("samples") or []
         cov["exhaustive"] = True
         out.assumptions += ["the harness writer is deliberately slow and flags overlapping Write calls; logical instants are 70 ms apart with 45 ms slack"]
         if r["vectors"] < 100:
